@@ -202,8 +202,10 @@ impl AsyncFileSystem for AsyncOverlayFS {
     }
 
     async fn remove_dir(&self, path: &str) -> VfsResult<()> {
-        // Ensure path exists
-        self.read_path(path).await?;
+        // Ensure path exists, is a directory and has no entries in any layer
+        if self.read_dir(path).await?.next().await.is_some() {
+            return Err(VfsErrorKind::Other("Directory to remove is not empty".into()).into());
+        }
         let write_path = self.write_path(path)?;
         if write_path.exists().await? {
             write_path.remove_dir().await?;
